@@ -110,10 +110,12 @@ class Texts(object):
                 t = u" ".join(ws) + u"%d" % self.counter
                 if self.rnd.random() < 0.3:
                     t = t.replace(u" ", u"|", 1) if u" " in t else u"|" + t      # a pipe inside the cell (rendered escaped)
+            elif kind == "comment":
+                t = self.rnd.choice([u"# ", u"#", u"## "]) + u"%s %d" % (ws[0], self.counter)
             else:
                 t = u"%s %d %s" % (ws[0], self.counter, u" ".join(ws[1:]))
                 t = t.strip()
-            if kind in ("tag", "cell") or all(l.readings(t) == set() for l in self.safe_for):
+            if kind in ("tag", "cell", "comment") or all(l.readings(t) == set() for l in self.safe_for):
                 return t
         raise RuntimeError("no safe payload text found")
 
@@ -161,7 +163,7 @@ def to_text(ln, l1, l2, texts, rnd):
             s += u"  # comment @nota tag"
         return pad + s, 0
     if c == "#":
-        return pad + u"# " + (texts.get(ps[0], "name") if ps else u"note"), 0
+        return pad + (texts.get(ps[0], "comment") if ps else u"# note"), 0
     if c == "Lang":
         name = UNKNOWN_LANGUAGE if a == "unknown" else (l2.name if ln.get("lg", 1) == 2 else l1.name)
         return pad + ln.get("hdr", u"# language: ") + name, 0
